@@ -79,7 +79,7 @@ macro_rules! subsection_harness {
         #[kani::stub(core::result::Result::expect, expect_model)]
         #[kani::stub(core::result::Result::unwrap, unwrap_model)]
         #[kani::stub(crate::error::Bug::new, crate::error::Bug::verif_new)]
-        fn $name() { subsection_case::<$p, $w>() }
+        pub fn $name() { subsection_case::<$p, $w>() }
     };
 }
 subsection_harness!(c35_subsection_p0_w3, 0, 3);
@@ -177,7 +177,7 @@ macro_rules! upload_inner_harness {
         #[kani::stub(core::result::Result::expect, expect_model)]
         #[kani::stub(core::result::Result::unwrap, unwrap_model)]
         #[kani::stub(crate::error::Bug::new, crate::error::Bug::verif_new)]
-        fn $name() { upload_inner_case::<$p, $w>($pre) }
+        pub fn $name() { upload_inner_case::<$p, $w>($pre) }
     };
 }
 upload_inner_harness!(c35_upload_inner_absent_w2, 0, 2, Pre::Absent);
@@ -242,7 +242,7 @@ macro_rules! blob_harness {
         #[kani::stub(core::result::Result::unwrap, unwrap_model)]
         #[kani::stub(crate::error::Bug::new, crate::error::Bug::verif_new)]
         #[kani::stub(fuel_crypto::Hasher::hash, toy_hash)]
-        fn $name() { blob_case::<$w>($present) }
+        pub fn $name() { blob_case::<$w>($present) }
     };
 }
 blob_harness!(c35_blob_new_w0, 0, false);
@@ -308,7 +308,7 @@ fn upgrade_state_transition_case() {
 #[kani::stub(fuel_crypto::Hasher::hash, toy_hash)]
 #[kani::stub(fuel_crypto::Hasher::input, hasher_input_noop)]
 #[kani::stub(fuel_crypto::Hasher::finalize, hasher_finalize_const)]
-fn c35_upgrade_state_transition() { upgrade_state_transition_case() }
+pub fn c35_upgrade_state_transition() { upgrade_state_transition_case() }
 
 pub(crate) fn hasher_input_noop<Bb: AsRef<[u8]>>(_h: &mut fuel_crypto::Hasher, _data: Bb) {}
 pub(crate) fn hasher_finalize_const(_h: fuel_crypto::Hasher) -> Bytes32 { Bytes32::new([0x1D; 32]) }
@@ -364,4 +364,4 @@ fn upgrade_consensus_case() {
 #[kani::stub(fuel_crypto::Hasher::input, hasher_input_noop)]
 #[kani::stub(fuel_crypto::Hasher::finalize, hasher_finalize_const)]
 #[kani::stub(fuel_tx::UpgradeMetadata::compute, upgrade_metadata_model)]
-fn c35_upgrade_consensus_parameters() { upgrade_consensus_case() }
+pub fn c35_upgrade_consensus_parameters() { upgrade_consensus_case() }
